@@ -98,40 +98,7 @@ func (e *Engine) VerifyUnit(c *Contract) (r *FnRun) {
 	r.assertAxioms(fr)
 	ctx := fr.ctxHere()
 	// package invariants over package-level variables
-	if fn.Pkg != nil {
-		isInit := fn.Name() == "init" && fn.Signature.Recv() == nil
-		if !isInit {
-			for _, gi := range e.DB.GlobalInvs[pkgOf(fn).Path()] {
-				fr.assume(ctx.Bool(gi.E))
-				r.Trusted["A-GLOBAL: package-level variables are assigned only in init (checked syntactically) and their slices/maps are not mutated: "+gi.Src] = true
-			}
-		}
-		// invariants of the packages this one imports (their initialisers ran first; each is proved in its own init unit)
-		imported := map[string]bool{}
-		var walk func(p *types.Package)
-		walk = func(p *types.Package) {
-			for _, q := range p.Imports() {
-				if !imported[q.Path()] {
-					imported[q.Path()] = true
-					walk(q)
-				}
-			}
-		}
-		walk(pkgOf(fn))
-		for _, path := range sortedKeys(e.DB.GlobalInvs) {
-			if !imported[path] {
-				continue
-			}
-			octx := fr.ctxHere()
-			octx.pkgPath = path
-			for _, gi := range e.DB.GlobalInvs[path] {
-				if t, ok := octx.tryBool(gi.E); ok {
-					fr.assume(t)
-					r.Trusted["A-GLOBAL ("+path+"): "+gi.Src] = true
-				}
-			}
-		}
-	}
+	fr.assumeGlobalInvs()
 	for _, rq := range c.Requires {
 		fr.assume(ctx.Bool(rq.E))
 	}
@@ -915,4 +882,52 @@ func storePrecedes(st *ssa.Store, mc *ssa.MakeClosure) bool {
 		stack = append(stack, b.Succs...)
 	}
 	return true
+}
+
+// assumeGlobalInvs assumes the package invariants (of the unit's package and of the packages it imports) in the current
+// state. They hold in every state after package initialisation: the variables they name are assigned only in init and
+// what they hold is never mutated or aliased (A-GLOBAL; checked by the frame obligation of the init unit), so the
+// engine states them again after forgetting the heap (a loop head, a call of unknown code).
+func (fr *Frame) assumeGlobalInvs() {
+	r := fr.R
+	e := r.Eng
+	fn := r.Fn
+	if fn == nil || fn.Pkg == nil {
+		return
+	}
+	ctx := fr.ctxHere()
+	isInit := fn.Name() == "init" && fn.Signature.Recv() == nil
+	if !isInit {
+		for _, gi := range e.DB.GlobalInvs[pkgOf(fn).Path()] {
+			if t, ok := ctx.tryBool(gi.E); ok {
+				fr.assume(t)
+				r.Trusted["A-GLOBAL: package-level variables are assigned only in init (checked syntactically) and their slices/maps are not mutated: "+gi.Src] = true
+			}
+		}
+	}
+	// invariants of the packages this one imports (their initialisers ran first; each is proved in its own init unit)
+	imported := map[string]bool{}
+	var walk func(p *types.Package)
+	walk = func(p *types.Package) {
+		for _, q := range p.Imports() {
+			if !imported[q.Path()] {
+				imported[q.Path()] = true
+				walk(q)
+			}
+		}
+	}
+	walk(pkgOf(fn))
+	for _, path := range sortedKeys(e.DB.GlobalInvs) {
+		if !imported[path] {
+			continue
+		}
+		octx := fr.ctxHere()
+		octx.pkgPath = path
+		for _, gi := range e.DB.GlobalInvs[path] {
+			if t, ok := octx.tryBool(gi.E); ok {
+				fr.assume(t)
+				r.Trusted["A-GLOBAL ("+path+"): "+gi.Src] = true
+			}
+		}
+	}
 }
